@@ -186,6 +186,46 @@ class Gen:
 
     _p_letter = 0.5
 
+    def block_collision_bbans(self, cc, rng, per_k=3):
+        """BBANs built for chunked modular arithmetic: the number that is reduced mod 97 (BBAN + country + two digits, letters
+        expanded) is cut into k-digit blocks from the right, for every k in 2..18; two blocks t1 < t2 that lie inside numeric
+        BBAN positions are given values c1 = w2*m and c2 = w1*m (w = 10^(k*t) mod 97), so that their weighted contributions
+        w1*c1 and w2*c2 are EQUAL integers. Exact for the true arithmetic, fatal for de-duplicating / merging / reordering
+        shortcuts over blocks. Only countries whose BBAN is all numeric are used (no letter expansion inside the BBAN)."""
+        cl = self.classes(cc)
+        if set(cl) != {"n"}:
+            return
+        n = len(cl)
+        total = n + 6                      # two letters expand to four digits, plus two check digits
+        for k in range(2, 19):
+            blocks = []                    # (t, start, end) of blocks fully inside the BBAN digits
+            t = 0
+            while True:
+                end = total - k * t
+                start = end - k
+                if end <= 0:
+                    break
+                if start >= 0 and end <= n:
+                    blocks.append((t, start, end))
+                t += 1
+            made = 0
+            pairs = [(a, b) for i, a in enumerate(blocks) for b in blocks[i + 1:]]
+            rng.shuffle(pairs)
+            for (t1, s1, e1), (t2, s2, e2) in pairs:
+                w1, w2 = pow(10, k * t1, 97), pow(10, k * t2, 97)
+                lim = (10 ** k - 1) // max(w1, w2)
+                if lim < 1:
+                    continue
+                for m in {1, lim, rng.randrange(1, lim + 1)}:
+                    c1, c2 = w2 * m, w1 * m
+                    b = list(self.bban(cc, rng))
+                    b[s1:e1] = f"{c1:0{k}d}"
+                    b[s2:e2] = f"{c2:0{k}d}"
+                    yield k, "".join(b)
+                made += 1
+                if made >= per_k:
+                    break
+
     def token_bbans(self, cc, rng, tokens):
         """BBANs in which a run of letter-capable positions spells a dictionary word (IBAN, BBAN, SEPA, NONE, NULL ...):
         texts that look like labels or keywords to careless pre-processing."""
